@@ -44,6 +44,13 @@ type c07Struct struct {
 
 type c07Other struct{ A, B float64 }
 
+type c07Wide struct {
+	A string
+	B int
+	C []int
+	D map[string]string
+}
+
 func c07ForeignDoc() any {
 	st := c07Struct{Name: "s", N: 3, Tags: []string{"x", "y"}}
 	return map[string]any{
@@ -126,6 +133,15 @@ func c07Round(c *Ctx, idx int) {
 	foreign := []string{"@", "s", "strs", "ints", "m", "[s, p]", "type(s)", "type(strs)", "to_array(strs)", "not_null(p, s)", "s == s", "contains([s], s)", "strs[0]", "m.a", "length(strs)", "recs[*].s", "recs[?s]", "[strs, ints, m][0]", "to_string(s)", "p", "length(@)", "recs[0].tags", "arr", "arr[0]", "nested.inner", "nested.inner.k"}
 	directed := append(c07Directed(), foreign...)
 	nForeignFrom := len(directed) - len(foreign)
+	// documents 3, 5, 7: foreign values as the whole document (a struct, a slice of structs, a pointer)
+	godocs[3], docs[3] = c07Struct{Name: "top", N: 1, Tags: []string{"t"}}, nil
+	godocs[5], docs[5] = []c07Other{{1, 2}, {3, 4}}, nil
+	godocs[7], docs[7] = &c07Wide{A: "a", B: 2, C: []int{1}, D: map[string]string{"k": "v"}}, nil
+	topForeign := []string{"@", "type(@)", "Name", "N", "Tags", "[0]", "[*]", "length(@)", "to_string(@)", "[@, @]", "not_null(@)", "@ == @", "A", "B", "C[0]", "D.k", "keys(@)", "[0].A"}
+	nTopFrom := len(directed)
+	for range 3 {
+		directed = append(directed, topForeign...)
+	}
 	// expressions + sequential outcomes
 	var items []c07Item
 	nodeTypes := map[string]bool{}
@@ -137,9 +153,12 @@ func c07Round(c *Ctx, idx int) {
 			if len(items) >= nForeignFrom {
 				d = 1
 			}
+			if len(items) >= nTopFrom {
+				d = 3 + 2*((len(items)-nTopFrom)/len(topForeign))
+			}
 			goto have
 		}
-		if d == 1 {
+		for d == 1 || d == 3 || d == 5 || d == 7 {
 			d = 2 + r.Intn(ndocs-2)
 		}
 		switch r.Intn(5) {
@@ -184,7 +203,7 @@ func c07Round(c *Ctx, idx int) {
 		// evaluated in this process before the goroutines are released, so anything the
 		// library initialises lazily and process-wide is initialised concurrently; its
 		// sequential outcome is computed after the concurrent phase
-		it.cold = len(items)%3 == 2
+		it.cold = len(items)%3 == 2 || docs[d] == nil // the foreign document is first seen by the library under concurrency
 		if !it.cold {
 			l := c.LibSearch(text, godocs[d])
 			if l.Panic != nil && len(items) >= len(directed) {
@@ -328,7 +347,7 @@ func c07Round(c *Ctx, idx int) {
 func init() {
 	Register(&Property{
 		ID:            "C07",
-		Rule:          "worker built with the Go race detector; each round runs in a fresh process (lazy initialisation races once per process): ~220 expressions (forms that range Go maps, generated calls, core expressions, and builders that sort/reverse/merge/reslice arrays of the shared document or literals of the shared Expression; AST node types covered are counted) over 20 shared read-only documents (one of them holding foreign Go values: structs, pointers, typed slices, maps and arrays), plus ~220 directed forms (every ordering/reversing/merging function applied to every way of handing it an array of the shared document or a literal of the shared Expression without a copy), are first evaluated sequentially - except every third one, which stays cold so that whatever the library initialises lazily and process-wide is initialised under concurrency, and whose outcome alone is computed afterwards - then G goroutines (G in {2,8,16,32,64}, GOMAXPROCS in {2,4,16}) are released from a barrier and run a seeded mix of Search(text, sharedDoc), Compile(text)+Search and sharedExpression.Search(sharedDoc), reading every result completely; refuting events: any race-detector report (counted and de-duplicated by the driver from GORACE logs), any call whose canonical outcome differs from the sequential outcome of the same call, a changed AST fingerprint of a shared Expression, a changed shared document; non-trivial = rounds and (expression, document) pairs exercised concurrently",
+		Rule:          "worker built with the Go race detector; each round runs in a fresh process (lazy initialisation races once per process): ~220 expressions (forms that range Go maps, generated calls, core expressions, and builders that sort/reverse/merge/reslice arrays of the shared document or literals of the shared Expression; AST node types covered are counted) over 20 shared read-only documents (one of them holding foreign Go values - structs, pointers, typed slices, maps and arrays - and three being foreign values themselves: a struct, a slice of structs, a pointer to a struct; those four are never evaluated before the goroutines are released), plus ~220 directed forms (every ordering/reversing/merging function applied to every way of handing it an array of the shared document or a literal of the shared Expression without a copy), are first evaluated sequentially - except every third one, which stays cold so that whatever the library initialises lazily and process-wide is initialised under concurrency, and whose outcome alone is computed afterwards - then G goroutines (G in {2,8,16,32,64}, GOMAXPROCS in {2,4,16}) are released from a barrier and run a seeded mix of Search(text, sharedDoc), Compile(text)+Search and sharedExpression.Search(sharedDoc), reading every result completely; refuting events: any race-detector report (counted and de-duplicated by the driver from GORACE logs), any call whose canonical outcome differs from the sequential outcome of the same call, a changed AST fingerprint of a shared Expression, a changed shared document; non-trivial = rounds and (expression, document) pairs exercised concurrently",
 		MinNontrivial: 100,
 		Streams: []Stream{
 			{Name: "rounds", N: c07Rounds, Run: c07Round},
